@@ -1081,6 +1081,10 @@ class Interp:
             return self.call(self.bind(f[0], it, f[1]), [], {})
         if type(it) is Sym or it is None or isinstance(it, (int, float)):
             raise PyExc(TypeError, ("'%s' object is not iterable" % pytype(it).__name__,))
+        if type(it).__name__ == "dict_items":
+            return [(unkey(k), v) for k, v in it]
+        if type(it).__name__ == "dict_keys":
+            return [unkey(k) for k in it]
         if isinstance(it, dict):
             return [unkey(k) for k in it]
         if isinstance(it, (set, frozenset)):
@@ -1165,12 +1169,7 @@ class Interp:
                 d.update(self.eval(v, fr))
             else:
                 kk = self.eval(k, fr)
-                try:
-                    d[kk] = self.eval(v, fr)
-                except SymLeak as e:
-                    raise Unsupported("dict key symbolic: %s" % e)
-                except TypeError as e:
-                    raise PyExc(TypeError, e.args)
+                self.setitem(d, kk, self.eval(v, fr))
         return d
 
     def ex_JoinedStr(self, node, fr):
@@ -1388,10 +1387,7 @@ class Interp:
 
         def emit():
             k = self.eval(node.key, sub)
-            try:
-                out[k] = self.eval(node.value, sub)
-            except SymLeak as e:
-                raise Unsupported("dict comprehension with symbolic key: %s" % e)
+            self.setitem(out, k, self.eval(node.value, sub))
 
         self._comp(node.generators, fr, env, emit)
         return out
@@ -1447,6 +1443,15 @@ class Interp:
 
         if type(a) is NDArr or type(b) is NDArr:
             return libmodels.nd_binop(self, opcls, a, b)
+        if isinstance(a, (set, frozenset)) and isinstance(b, (set, frozenset)) and (has_symkey(a) or has_symkey(b)) \
+                and opcls in (ast.Sub, ast.BitOr, ast.BitAnd):
+            name = {ast.Sub: "difference", ast.BitOr: "union", ast.BitAnd: "intersection"}[opcls]
+            r = self.sym_set_method(a, name, [b])
+            if inplace and isinstance(a, set):
+                a.clear()
+                a.update(r)
+                return a
+            return r
         if type(a) is SObj or type(b) is SObj:
             d, rd = self._BIN_DUNDER[opcls]
             if type(a) is SObj:
